@@ -116,7 +116,7 @@ func filesCase(t *rapid.T, root string, prog *mrogen.Program) {
 	if os.Getenv("VERIF_KEEP") == "" {
 		defer os.RemoveAll(dir)
 	}
-	src := prog.Source(nil)
+	src := prog.Source(runLayout(t))
 	mode := rapid.SampledFrom([]core.VdrMode{core.VdrRolling, core.VdrRolling, core.VdrPost, core.VdrStrict, core.VdrStrict, core.VdrDisable}).Draw(t, "vdrMode")
 	psDir := filepath.Join(dir, "ps")
 	led := filesim.New(psDir)
